@@ -198,6 +198,9 @@ func c14Join(levels []string) string {
 
 func c14GenTopic(rt *rapid.T, label string) string {
 	n := rapid.IntRange(1, 12).Draw(rt, label+"Depth")
+	if rapid.IntRange(0, 7).Draw(rt, label+"Deep") == 0 {
+		n = rapid.IntRange(13, 90).Draw(rt, label+"DepthDeep") // far beyond any fixed-size level buffer
+	}
 	lv := make([]string, n)
 	for i := range lv {
 		if i == 0 {
@@ -288,6 +291,9 @@ type c14MuxCase struct {
 	// Late[i] >= 0: handler i, when it first runs, registers the filter Filters[Late[i]] again under a new number
 	// (a handler calling Handle from inside its callback, while Serve is in progress)
 	Late []int `json:"late,omitempty"`
+	// Nested[i] (same length as Filters, or empty): handler i, when invoked by the outermost Serve, dispatches the topics
+	// Topics[j] for j in Nested[i] through the same mux before it returns (a handler unpacking a bundle)
+	Nested [][]int `json:"nested,omitempty"`
 }
 
 // TestVerifC14_Mux: ServeMux invokes exactly the handlers whose filter matches, in
@@ -307,15 +313,25 @@ func TestVerifC14_Mux(t *testing.T) {
 		for i := 0; i < nf; i++ {
 			c.Filters = append(c.Filters, c14GenFilter(rt, "f", c.Topics[rapid.IntRange(0, nt-1).Draw(rt, "base")]))
 		}
-		if rapid.IntRange(0, 2).Draw(rt, "reentrant") == 0 {
+		switch rapid.IntRange(0, 5).Draw(rt, "reentrant") {
+		case 0, 1:
 			for i := 0; i < nf; i++ {
 				c.Late = append(c.Late, rapid.IntRange(-2, nf-1).Draw(rt, "late"))
+			}
+		case 2:
+			for i := 0; i < nf; i++ {
+				var ns []int
+				if rapid.IntRange(0, 2).Draw(rt, "nests") == 0 {
+					ns = rapid.SliceOfN(rapid.IntRange(0, nt-1), 1, 3).Draw(rt, "nested")
+				}
+				c.Nested = append(c.Nested, ns)
 			}
 		}
 		return c
 	}, func(tb rapid.TB, c c14MuxCase) {
 		mux := &ServeMux{}
 		var calls []int
+		depth := 0 // > 0 while a handler is dispatching nested messages
 		// registered: filters in registration order (grows when a handler registers another one)
 		registered := []string{}
 		lateDone := map[int]bool{}
@@ -324,6 +340,13 @@ func TestVerifC14_Mux(t *testing.T) {
 			i := i
 			body := func(*Message) {
 				calls = append(calls, i)
+				if depth == 0 && i < len(c.Nested) {
+					depth++
+					for _, j := range c.Nested[i] {
+						mux.Serve(&Message{Topic: c.Topics[j], Payload: []byte("n")})
+					}
+					depth--
+				}
 				if i < len(c.Late) && c.Late[i] >= 0 && !lateDone[i] {
 					lateDone[i] = true
 					nf := c.Filters[c.Late[i]]
@@ -365,11 +388,20 @@ func TestVerifC14_Mux(t *testing.T) {
 		for _, tp := range topics {
 			// reference: every handler registered BEFORE this Serve whose filter matches, in registration order
 			var want []int
-			for k, f := range registered {
-				if refMatch(refSplitLevels(f), refSplitLevels(tp)) {
-					want = append(want, numbers[k])
+			var ref func(topic string, d int)
+			ref = func(topic string, d int) {
+				for k, f := range registered {
+					if refMatch(refSplitLevels(f), refSplitLevels(topic)) {
+						want = append(want, numbers[k])
+						if d == 0 && numbers[k] < len(c.Nested) {
+							for _, j := range c.Nested[numbers[k]] {
+								ref(c.Topics[j], d+1)
+							}
+						}
+					}
 				}
 			}
+			ref(tp, 0)
 			if len(want) >= 2 {
 				multi++
 			}
